@@ -1,3 +1,21 @@
 //go:build verif
 
 package perio
+
+import "time"
+
+// VerifGroups: period -> number of registered (session, URR) pairs. Racy by nature
+// (the table belongs to the perio goroutine); the simulator calls it at quiescence.
+func (s *Server) VerifGroups() map[time.Duration]int {
+	out := map[time.Duration]int{}
+	for p, g := range s.perioList {
+		n := 0
+		for _, u := range g.urrids {
+			n += len(u)
+		}
+		out[p] = n
+	}
+	return out
+}
+
+func (s *Server) VerifQueueLen() int { return len(s.evtCh) }
